@@ -256,6 +256,9 @@ pub fn sets(ctx: &Ctx) -> Vec<CaseSet> {
             for x in tb4.ints.iter().step_by(7) {
                 leaves.push(Value::Number(gen::int_to_number(*x)));
             }
+            for v in quote_shaped() {
+                check(rep, &v, &p, &q, false);
+            }
             for l in leaves {
                 // in list / vector / dotted-tail context
                 for v in [l.clone(), Value::list(vec![l.clone(), Value::symbol("z")]), Value::vector(vec![Value::symbol("z"), l.clone()]), Value::cons(Value::symbol("z"), l.clone())] {
